@@ -66,6 +66,8 @@ type fakeAdmin struct {
 	endpoints map[string]bool // endpoints.map keys
 	manageAll bool            // proc.manage_all
 	calls     int
+	failPut   int // refuse the next manage PUTs (/managed_endpoint, /manage_all)
+	failDel   int // refuse the next un-manage DELETEs (/managed_endpoint, /unmanage_global)
 }
 
 var admin = &fakeAdmin{endpoints: map[string]bool{}}
@@ -76,6 +78,7 @@ func (a *fakeAdmin) reset() {
 	a.endpoints = map[string]bool{}
 	a.manageAll = false
 	a.calls = 0
+	a.failPut, a.failDel = 0, 0
 	a.mu.Unlock()
 }
 
@@ -84,6 +87,19 @@ func (a *fakeAdmin) ServeHTTP(w http.ResponseWriter, r *http.Request) {
 	key := string(body)
 	a.mu.Lock()
 	a.calls++
+	manage := r.Method == http.MethodPut && (r.URL.Path == "/managed_endpoint" || r.URL.Path == "/manage_all")
+	unmanage := r.Method == http.MethodDelete && (r.URL.Path == "/managed_endpoint" || r.URL.Path == "/unmanage_global")
+	if manage && a.failPut > 0 || unmanage && a.failDel > 0 {
+		if manage {
+			a.failPut--
+		} else {
+			a.failDel--
+		}
+		a.mu.Unlock()
+		w.WriteHeader(http.StatusInternalServerError)
+		io.WriteString(w, "refused")
+		return
+	}
 	switch r.URL.Path {
 	case "/managed_endpoint":
 		if r.Method == http.MethodPut {
@@ -252,6 +268,12 @@ func (w *reloadWorld) reload(glob bool, eps []polDecl, o *proto.Out) string {
 		return "err"
 	}
 	if err := w.acc.UpdatePoliciesData(pd, false); err != nil {
+		w.reloads++
+		w.settleRegistrations()
+		if strings.Contains(err.Error(), "failed to initialize HAProxy endpoints") {
+			o.Count("L4-reload-manage-refused")
+			return "err:manage"
+		}
 		return "err:update:" + proto.Enc(err.Error())
 	}
 	w.reloads++
@@ -293,5 +315,27 @@ func (w *reloadWorld) managed() string {
 	if len(keys) > 0 {
 		l = strings.Join(keys, ";")
 	}
-	return "all=" + all + " n=" + itoa(len(keys)) + " set=" + l
+	// the request of the policies IN FORCE in the engine (real accessor, real BuildHAProxyEndpointsRequest)
+	cur := w.acc.GetCurrentPoliciesData().Config
+	force := config.BuildHAProxyEndpointsRequest(&cur)
+	fe := make([]string, 0, len(force.ManagedEndpoints))
+	for _, e := range force.ManagedEndpoints {
+		fe = append(fe, proto.Enc(e.Endpoint))
+	}
+	sort.Strings(fe)
+	fma, fl := "0", "-"
+	if force.ManageAll {
+		fma = "1"
+	}
+	if len(fe) > 0 {
+		fl = strings.Join(fe, ";")
+	}
+	return "all=" + all + " n=" + itoa(len(keys)) + " set=" + l + " fma=" + fma + " feps=" + fl
+}
+
+func (w *reloadWorld) fail(put, del int) string {
+	admin.mu.Lock()
+	admin.failPut, admin.failDel = put, del
+	admin.mu.Unlock()
+	return "ok"
 }
